@@ -135,7 +135,8 @@ def gen_static():
         folds('c17_sum_%s' % v.lower(), '%s<R>' % v, '%s::<R>::zero()' % v, '+', 'sum')
     for m in MAT:
         folds('c17_sum_%s' % m.lower(), '%s<R>' % m, '%s::<R>::zero()' % m, '+', 'sum', 3)
-        folds('c17_product_%s' % m.lower(), '%s<R>' % m, '%s::<R>::identity()' % m, '*', 'product', 3)
+        # (fewer factors for the larger matrices: a data-dependent branch per factor would multiply paths)
+        folds('c17_product_%s' % m.lower(), '%s<R>' % m, '%s::<R>::identity()' % m, '*', 'product', {'Matrix2': 3, 'Matrix3': 2, 'Matrix4': 2}[m])
     folds('c17_sum_quat', 'Quaternion<R>', 'Quaternion::<R>::zero()', '+', 'sum')
     folds('c17_product_quat', 'Quaternion<R>', 'Quaternion::<R>::one()', '*', 'product', 3)
     folds('c17_sum_rad', 'Rad<R>', 'Rad::<R>::zero()', '+', 'sum')
